@@ -1160,6 +1160,8 @@ pub enum CtlOp {
         timed: Option<TimedSpec>,
         flag_timed: bool,
         items: Vec<(PathSpec, u32)>,
+        /// The write is sent in two chunks (MoreChunkedMessages on the first one)
+        second: Option<SecondChunk>,
     },
     Invoke {
         timed: Option<TimedSpec>,
@@ -1355,8 +1357,17 @@ pub fn subscribe_request(
     tlvx::to_bytes(&st(m))
 }
 
-pub fn write_request(flag_timed: bool, items: &[(PathSpec, u32)]) -> Vec<u8> {
-    tlvx::to_bytes(&st(vec![
+/// Second chunk of a write: the items from index `at` on, sent `delay_ms` after the answer to the
+/// first chunk, with its own TimedRequest flag
+#[derive(Clone, Debug, PartialEq, Eq)]
+pub struct SecondChunk {
+    pub at: usize,
+    pub delay_ms: u32,
+    pub flag_timed: bool,
+}
+
+pub fn write_request(flag_timed: bool, items: &[(PathSpec, u32)], more: bool) -> Vec<u8> {
+    let mut fields = vec![
         (0, Val::Bool(false)),
         (1, Val::Bool(flag_timed)),
         (
@@ -1366,8 +1377,12 @@ pub fn write_request(flag_timed: bool, items: &[(PathSpec, u32)]) -> Vec<u8> {
                 .map(|(p, v)| st(vec![(1, p.attr_path()), (2, Val::UInt(*v as u64))]))
                 .collect()),
         ),
-        (0xff, Val::UInt(12)),
-    ]))
+    ];
+    if more {
+        fields.push((3, Val::Bool(true)));
+    }
+    fields.push((0xff, Val::UInt(12)));
+    tlvx::to_bytes(&st(fields))
 }
 
 pub fn invoke_request(flag_timed: bool, items: &[(PathSpec, u32)]) -> Vec<u8> {
@@ -1435,10 +1450,26 @@ async fn run_op(c: &Ctl<'_>, ex: &mut Exchange<'_>, step: &CtlStep) -> Result<()
             }
             ex.acknowledge().await
         }
-        CtlOp::Write { timed, flag_timed, items } => {
+        CtlOp::Write { timed, flag_timed, items, second } => {
             timed_prelude(c, ex, step, timed).await?;
-            send_im(c, ex, step.op_id, 0, OP_WRITE, &write_request(*flag_timed, items)).await?;
-            recv_im(c, ex, step.op_id, 0, step.pair).await?;
+            match second {
+                None => {
+                    send_im(c, ex, step.op_id, 0, OP_WRITE, &write_request(*flag_timed, items, false)).await?;
+                    recv_im(c, ex, step.op_id, 0, step.pair).await?;
+                }
+                Some(sc) => {
+                    let at = sc.at.min(items.len());
+                    send_im(c, ex, step.op_id, 0, OP_WRITE, &write_request(*flag_timed, &items[..at], true)).await?;
+                    let (opc, _) = recv_im(c, ex, step.op_id, 0, step.pair).await?;
+                    if opc == OP_WRITE_RESP {
+                        if sc.delay_ms > 0 {
+                            Timer::after(Duration::from_millis(sc.delay_ms as u64)).await;
+                        }
+                        send_im(c, ex, step.op_id, 1, OP_WRITE, &write_request(sc.flag_timed, &items[at..], false)).await?;
+                        recv_im(c, ex, step.op_id, 1, step.pair).await?;
+                    }
+                }
+            }
             ex.acknowledge().await
         }
         CtlOp::Invoke { timed, flag_timed, items } => {
